@@ -22,7 +22,13 @@ pub fn generate(thorough: bool, seed: u64, em: &mut Emitter) {
         let marks = gen::gen_marking(r, &claims, true);
         let alg = indep::ALGS[i % 3];
         let opts = RefOpts { alg: alg.to_string(), decoys: r.chance(1, 2), odd_format: r.chance(1, 2) };
-        let tok = ref_issue(r, &claims, &marks, &opts);
+        let mut tok = ref_issue(r, &claims, &marks, &opts);
+        // "If the _sd_alg claim is not present at the top level, a default value of sha-256 MUST be used":
+        // a conformant issuer that hashes with sha-256 may leave the claim out
+        let no_alg = alg == "sha-256" && r.chance(1, 3);
+        if no_alg {
+            tok.payload.as_object_mut().unwrap().remove("_sd_alg");
+        }
         let mut list: Vec<String> = tok.discs.iter().map(|d| d.string.clone()).collect();
         r.shuffle(&mut list);
         if i % 2 == 0 {
@@ -31,7 +37,10 @@ pub fn generate(thorough: bool, seed: u64, em: &mut Emitter) {
             case.as_object_mut().unwrap().remove("clear_hint");
             case["expect"] = expectation(&tok, &claims, &list, "accept");
             case["ref_check"] = json!(true);
-            case["nontrivial"] = json!(alg != "sha-256" || opts.decoys || opts.odd_format || gen::marking_nontrivial(&marks));
+            case["nontrivial"] = json!(alg != "sha-256" || no_alg || opts.decoys || opts.odd_format || gen::marking_nontrivial(&marks));
+            if no_alg {
+                case["tag"] = json!("no_sd_alg");
+            }
             em.case("verify", case);
         } else {
             // a presentation the library's holder derives from the foreign token
@@ -42,6 +51,9 @@ pub fn generate(thorough: bool, seed: u64, em: &mut Emitter) {
             case["ref_check"] = json!(true);
             case["judge_disclosures"] = json!(true);
             case["nontrivial"] = json!(true);
+            if no_alg {
+                case["tag"] = json!("no_sd_alg");
+            }
             em.case("present", case);
         }
     }
